@@ -508,6 +508,8 @@ class Tr:
             t = self.ty(e[1])
             if t == "f64":
                 return "bool" if e[2] in ("is_nan", "is_finite") else "f64"
+            if (t, e[2]) in getattr(self.c, "method_map", {}):
+                return self.c.method_map[(t, e[2])][1]
             if e[2] == "ok_or":
                 return t
             if vdim(t) and e[2] == "try_normalize":
@@ -530,6 +532,8 @@ class Tr:
                 return p[0]
             if len(p) == 2 and p[0] == "Unit" and p[1] in ("new_normalize", "new_unchecked"):
                 return self.ty(e[2][0])
+            if "::".join(p) in getattr(self.c, "call_ty", {}):
+                return self.c.call_ty["::".join(p)]
             if p == ["Iso2", "rotation"]:
                 return "Rot2"
             if len(p) == 2 and p[0] == "f64":
@@ -676,6 +680,8 @@ class Tr:
                 if name == "is_finite":
                     return "(nfinite %s)" % R
                 raise Unsupported("f64 method " + name)
+            if (t, name) in getattr(self.c, "method_map", {}):
+                return self.c.method_map[(t, name)][0].format(R, *[self.ex(a) for a in args])
             if name == "ok_or" and len(args) == 1:
                 return R                       # Option -> Result with a message: the model keeps the option
             d = vdim(t)
@@ -717,8 +723,8 @@ class Tr:
                     return self.ex(args[0])
                 if p[1] == "new_normalize" and len(args) == 1:
                     return "(normalize%d %s)" % (d, self.ex(args[0]))
-            if len(p) == 1 and p[0] in getattr(self.c, "call_map", {}):
-                return self.c.call_map[p[0]].format(*[self.ex(a) for a in args])
+            if "::".join(p) in getattr(self.c, "call_map", {}):
+                return self.c.call_map["::".join(p)].format(*[self.ex(a) for a in args])
             if p == ["Iso2", "rotation"] and len(args) == 1:
                 return self.ex(args[0])
             if len(p) == 2 and p[0] == "f64":
@@ -963,7 +969,8 @@ def split_top(s):
     return out
 
 
-def translate_file(path, module, wanted, types_import, extra_structs=None, extra_enums=None, call_map=None, type_map=None, trait_impls=()):
+def translate_file(path, module, wanted, types_import, extra_structs=None, extra_enums=None, call_map=None, type_map=None, trait_impls=(),
+                   method_map=None, call_ty=None):
     """Translate the wanted functions of a Rust file.
     Returns (coq_text, results) where results = {coq_name: None | error string}."""
     src = open(path).read()
@@ -979,6 +986,8 @@ def translate_file(path, module, wanted, types_import, extra_structs=None, extra
     ctx = Ctx(module, structs, enums, consts, fn_index, None)
     ctx.call_map = call_map or {}
     ctx.type_map = type_map or {}
+    ctx.method_map = {tuple(k.split(".")): tuple(v) for k, v in (method_map or {}).items()}
+    ctx.call_ty = call_ty or {}
     out_defs = {}
     deps = {}
     results = {}
